@@ -221,6 +221,26 @@ def run(ck, prog, ctx):
 
     check_complete_iteration(ck, "ROLE", prog, INNER + ["stats::calculate_counts"] + [b.id for b in prog.find(r"^stats::SampleSet::<.*>::(gene|omim_disease|orpha_disease)$")], "the sample / the annotations of a term")
 
+    # ---- the terms handed to a SampleSet constructor reach the counting function unfiltered: N and n count EVERY term of the
+    # background / the sample (obsolete and unannotated ones included)
+    from engines import chain_filters as _chain_filters
+    pvn = Prov(prog, inline=False)
+    srcs = {}
+    for sb_ in prog.find(r"^stats::SampleSet::<.*>::(gene|omim_disease|orpha_disease)$"):
+        counted = [(bi, t) for bi, t in sb_.calls() if t.callee.res in prog.bodies and prog.bodies[t.callee.res].natural_loops() and t.args and 1 in params_of(pvn.of_operand(sb_, t.args[0]), sb_.id)]
+        if not counted:
+            counted = [(bi, t) for bi, t in sb_.calls() if (t.callee.res or "").endswith("calculate_counts") and t.args]
+        if len(counted) != 1:
+            ck.undecided("ROLE", "sample-set/%s/terms" % sb_.name, "the call that counts the terms is not recognised in %s" % sb_.short, where=sb_.where())
+            continue
+        bi, t = counted[0]
+        fl = _chain_filters(sb_, pvn, t.args[0])
+        direct = params_of(pvn.of_operand(sb_, t.args[0]), sb_.id) == {1}
+        srcs[sb_.name] = tuple(fl)
+        ck.ob("ROLE", "sample-set/%s/terms" % sb_.name, direct and not fl, "%s counts %s" % (sb_.short, "every term it is given" if direct and not fl else ("the terms that remain after `%s`: N / n no longer count every term of the background / the sample" % ", ".join(fl) if fl else "something else than its `terms` argument")), where=sb_.where(t.line))
+    if len(srcs) == 3:
+        ck.ob("SIBLING", "sample-set/agree", len(set(srcs.values())) == 1, "the gene / OMIM / ORPHA sample sets treat their terms %s" % ("alike" if len(set(srcs.values())) == 1 else "differently: %s" % srcs))
+
     # ---- the population / sample size counts EVERY term, each annotation of every term is counted
     cc = prog.body("stats::calculate_counts")
     if cc is None:
